@@ -321,6 +321,99 @@ func (x *sqlExec) runSelectNoWith(s *selectStmt, outer *scope) (*relation, error
 type joinedRow struct {
 	binds []*binding
 	srcs  []*rowKey
+	win   map[*eWindow]Val // window-function values of the select list for this row
+}
+
+// computeWindows evaluates the window functions of the select list over the filtered rows (before DISTINCT ON,
+// ORDER BY and LIMIT, as SQL does): first_value(arg) over (partition by ... order by ...).
+func (x *sqlExec) computeWindows(s *selectStmt, rows []joinedRow, outer *scope) error {
+	var wins []*eWindow
+	for _, it := range s.cols {
+		windowsOf(it.e, &wins)
+	}
+	if len(wins) == 0 {
+		return nil
+	}
+	for i := range rows {
+		rows[i].win = map[*eWindow]Val{}
+	}
+	for _, w := range wins {
+		parts := map[string][]int{}
+		var order []string
+		for i, r := range rows {
+			var key []string
+			for _, e := range w.partition {
+				v, err := x.eval(e, &scope{binds: r.binds, outer: outer})
+				if err != nil {
+					return err
+				}
+				key = append(key, fmt.Sprintf("%T:%v", v, driverValue(v)))
+			}
+			k := strings.Join(key, "\x00")
+			if _, ok := parts[k]; !ok {
+				order = append(order, k)
+			}
+			parts[k] = append(parts[k], i)
+		}
+		for _, k := range order {
+			idx := parts[k]
+			keys := make([][]Val, len(idx))
+			for j, i := range idx {
+				for _, o := range w.order {
+					v, err := x.eval(o.e, &scope{binds: rows[i].binds, outer: outer})
+					if err != nil {
+						return err
+					}
+					keys[j] = append(keys[j], v)
+				}
+			}
+			best := 0
+			var cmpErr error
+			less := func(a, b int) bool { // is position a before position b in the window order
+				for oi, o := range w.order {
+					va, vb := keys[a][oi], keys[b][oi]
+					var c int
+					switch {
+					case va == nil && vb == nil:
+						c = 0
+					case va == nil:
+						c = 1
+					case vb == nil:
+						c = -1
+					default:
+						var err error
+						c, err = compareVals(va, vb)
+						if err != nil {
+							cmpErr = err
+						}
+					}
+					if o.desc {
+						c = -c
+					}
+					if c != 0 {
+						return c < 0
+					}
+				}
+				return false
+			}
+			for j := 1; j < len(idx); j++ {
+				if less(j, best) {
+					best = j
+				}
+			}
+			if cmpErr != nil {
+				return cmpErr
+			}
+			v, err := x.eval(w.arg, &scope{binds: rows[idx[best]].binds, outer: outer})
+			if err != nil {
+				return err
+			}
+			for _, i := range idx {
+				rows[i].win[w] = v
+			}
+		}
+	}
+	return nil
 }
 
 func (x *sqlExec) runSelectCore(s *selectStmt, outer *scope) (*relation, error) {
@@ -400,6 +493,9 @@ func (x *sqlExec) runSelectCore(s *selectStmt, outer *scope) (*relation, error) 
 	}
 	for _, r := range rows {
 		x.auditRows(r.srcs)
+	}
+	if err := x.computeWindows(s, rows, outer); err != nil {
+		return nil, err
 	}
 	grouped := len(s.groupBy) > 0
 	if !grouped {
@@ -553,7 +649,10 @@ func (x *sqlExec) runSelectCore(s *selectStmt, outer *scope) (*relation, error) 
 	for ri, r := range rows {
 		var vals []Val
 		var cols []string
-		sc := &scope{binds: r.binds, outer: outer}
+		sc := &scope{binds: r.binds, outer: outer, win: r.win}
+		if sc.win == nil {
+			sc.win = map[*eWindow]Val{}
+		}
 		for _, it := range s.cols {
 			if st, ok := it.e.(*eStar); ok {
 				matched := false
